@@ -402,6 +402,23 @@ func (p *Pool) Get() any {
 	return nil
 }
 
+// pools that got objects back during a controlled execution: their free lists are emptied when the next one starts
+var (
+	touchedMu sync.Mutex
+	touched   = map[*Pool]struct{}{}
+)
+
+func init() {
+	vsched.RunStartHooks = append(vsched.RunStartHooks, func() {
+		touchedMu.Lock()
+		for p := range touched {
+			p.free = nil
+		}
+		touched = map[*Pool]struct{}{}
+		touchedMu.Unlock()
+	})
+}
+
 func (p *Pool) Put(x any) {
 	if vsched.Aborting() {
 		return
@@ -409,6 +426,9 @@ func (p *Pool) Put(x any) {
 	if vsched.Active() {
 		vsched.Point("Pool.Put", p)
 		p.free = append(p.free, x)
+		touchedMu.Lock()
+		touched[p] = struct{}{}
+		touchedMu.Unlock()
 		return
 	}
 	if p.Deterministic || AllDeterministic {
